@@ -51,7 +51,12 @@ def main():
                                SV_REPLAY_DIR=os.path.join(wt, '.sv_rp'), SV_NO_SHRINK='1')
                     rc_c, o_c = sh('%s/check %s --tier quick' % (HERE, pid), cwd=HERE, env=env)
                     sigs = sorted(set(ln.split('signature: ')[1] for ln in o_c.split('\n') if 'signature: ' in ln))
-                    entry['checks'][pid] = {'rc': rc_c, 'signatures': sigs}
+                    try:
+                        ev = json.load(open(os.path.join(wt, '.sv_ev', pid + '.json')))
+                        known_hit = ev['coverage'].get('known_signatures_hit', [])
+                    except Exception:
+                        known_hit = []
+                    entry['checks'][pid] = {'rc': rc_c, 'signatures': sigs, 'known_signatures_hit': known_hit}
                     print(commit, pid, rc_c, sigs[:4], flush=True)
             res[commit] = entry
             with open(outp, 'w') as f:
